@@ -16,6 +16,7 @@ CONSTANTS Streams, W0, C0, MF0, DataSizes, PadSizes, Incs, InitWins, MaxFrames,
           BugPadCredit,   \* TRUE: model relay.go:496 (credit payload only)
           EncodeAtEnqueue, \* TRUE: header blocks are HPACK-encoded when queued (as the code did), not when written
           BugZeroCostHeld, \* TRUE: relay.go:562 as found - a frame that is not flow-controlled is held back while a window is negative
+          WithSettings,    \* FALSE: the sender's own SETTINGS frames and the receiver's empty one are left out (state space)
           DropOnClose,     \* TRUE: as found - when the sender's connection ends, what the relay still holds for the receiver is dropped
           SplitOnlyAtEnqueue \* TRUE: as found - DATA is cut to the receiver's max frame size when queued and never again;
                              \* FALSE: the writer cuts a frame that has waited to the limit in force when it is written
@@ -27,13 +28,15 @@ VARIABLES q, sw, bufs, cw, iw, mf, out, cont,      \* relay (flowMu-protected + 
           sentLog, dlvLog, nSend, nCtl,
           hcount, encOrder, dlvOrder,              \* ghost: header blocks in the order encoded / delivered
           pings, goneAway,                         \* connection-level frames: PINGs sent and not yet seen by B; GOAWAY sent / seen
-          aClosed                                  \* the sender has ended its side of the connection (EOF at the relay's reader)
+          aClosed,                                 \* the sender has ended its side of the connection (EOF at the relay's reader)
+          sets                                     \* SETTINGS frames on their way to the other endpoint (a2b, b2a) and their
+                                                   \* acknowledgements on the way back (ackA: owed to A, ackB: owed to B)
 
 rel   == <<q, sw, bufs, cw, out>>
 ledg  == <<gS, gC, bad, badMF>>
 aled  == <<aFC, aFCc, aCred, aCredC>>
 hp    == <<hcount, encOrder, dlvOrder>>
-conn  == <<pings, goneAway, aClosed>>
+conn  == <<pings, goneAway, aClosed, sets>>
 vars  == <<rel, iw, mf, cont, ctl, ledg, aled, sentLog, dlvLog, nSend, nCtl, hp, conn>>
 
 NoCont == [s |-> 0, es |-> FALSE]
@@ -48,6 +51,7 @@ Init ==
   /\ nSend = 0 /\ nCtl = 0
   /\ hcount = 0 /\ encOrder = <<>> /\ dlvOrder = <<>>
   /\ pings = {} /\ goneAway = "no" /\ aClosed = FALSE
+  /\ sets = [a2b |-> 0, b2a |-> 0, ackA |-> 0, ackB |-> 0]
 
 \* relay.go:483 outputBuffer(): created on first use with the *current* initial window
 Buf(s) == IF s \in bufs THEN sw[s] ELSE iw
@@ -186,14 +190,14 @@ ASendUnknown ==
 ASendPing(d) ==
   /\ nSend < MaxSend /\ cont.s = 0 /\ nSend' = nSend + 1 /\ d \notin pings /\ goneAway = "no"
   /\ pings' = pings \cup {d}
-  /\ UNCHANGED <<rel, iw, mf, cont, ctl, ledg, aled, sentLog, dlvLog, nCtl, hp, goneAway, aClosed>>
+  /\ UNCHANGED <<rel, iw, mf, cont, ctl, ledg, aled, sentLog, dlvLog, nCtl, hp, goneAway, aClosed, sets>>
 BRecvPing(d) == /\ d \in pings /\ pings' = pings \ {d}
-                /\ UNCHANGED <<rel, iw, mf, cont, ctl, ledg, aled, sentLog, dlvLog, nSend, nCtl, hp, goneAway, aClosed>>
+                /\ UNCHANGED <<rel, iw, mf, cont, ctl, ledg, aled, sentLog, dlvLog, nSend, nCtl, hp, goneAway, aClosed, sets>>
 ASendGoAway ==                       \* the sender's last frame
   /\ cont.s = 0 /\ goneAway = "no" /\ ~aClosed /\ goneAway' = "sent" /\ nSend' = MaxSend
-  /\ UNCHANGED <<rel, iw, mf, cont, ctl, ledg, aled, sentLog, dlvLog, nCtl, hp, pings, aClosed>>
+  /\ UNCHANGED <<rel, iw, mf, cont, ctl, ledg, aled, sentLog, dlvLog, nCtl, hp, pings, aClosed, sets>>
 BRecvGoAway == /\ goneAway = "sent" /\ goneAway' = "seen"
-               /\ UNCHANGED <<rel, iw, mf, cont, ctl, ledg, aled, sentLog, dlvLog, nSend, nCtl, hp, pings, aClosed>>
+               /\ UNCHANGED <<rel, iw, mf, cont, ctl, ledg, aled, sentLog, dlvLog, nSend, nCtl, hp, pings, aClosed, sets>>
 
 \* the sender ends its side of the connection (relayFrames: ReadFrame returns io.EOF): nothing more is read from it, but
 \* what it has sent is still owed to the receiver - queued frames wait for the receiver's windows as before and the
@@ -201,7 +205,7 @@ BRecvGoAway == /\ goneAway = "sent" /\ goneAway' = "seen"
 ASendClose ==
   /\ cont.s = 0 /\ ~aClosed /\ aClosed' = TRUE /\ nSend' = MaxSend
   /\ IF DropOnClose THEN q' = [s \in Streams |-> <<>>] /\ out' = <<>> ELSE UNCHANGED <<q, out>>
-  /\ UNCHANGED <<sw, bufs, cw, iw, mf, cont, ctl, ledg, aled, sentLog, dlvLog, nCtl, hp, pings, goneAway>>
+  /\ UNCHANGED <<sw, bufs, cw, iw, mf, cont, ctl, ledg, aled, sentLog, dlvLog, nCtl, hp, pings, goneAway, sets>>
 
 (* ---- writer goroutine: output channel -> B (relay.go:165-184) ---- *)
 \* what the writer puts on the wire next: a DATA frame that has waited is cut to the limit now in force
@@ -223,10 +227,25 @@ WriterSend ==
   /\ UNCHANGED <<q, sw, bufs, cw, iw, mf, cont, ctl, gS, gC, bad, aled, sentLog, nSend, nCtl, hcount, conn>>
 
 (* ---- receiver B issues control frames ---- *)
+\* SETTINGS frames ("SI" initial window, "SM" max frame size, "SE" empty: all defaults) are applied and passed on to A,
+\* WINDOW_UPDATE stays with the relay
+IsSettings(f) == f.t \in {"SI", "SM", "SE"}
 BCtl(f) ==
   /\ nCtl < MaxCtl /\ nCtl' = nCtl + 1 /\ Len(ctl) < MaxCtlQ
   /\ ctl' = Append(ctl, f)
-  /\ UNCHANGED <<rel, iw, mf, cont, ledg, aled, sentLog, dlvLog, nSend, hp, conn>>
+  /\ sets' = IF IsSettings(f) THEN [sets EXCEPT !.b2a = @ + 1] ELSE sets
+  /\ UNCHANGED <<rel, iw, mf, cont, ledg, aled, sentLog, dlvLog, nSend, hp, pings, goneAway, aClosed>>
+\* A sends a SETTINGS frame without parameters (relay.go processFrame: written to the receiver directly)
+ASendSettings ==
+  /\ nSend < MaxSend /\ cont.s = 0 /\ nSend' = nSend + 1 /\ sets' = [sets EXCEPT !.a2b = @ + 1]
+  /\ UNCHANGED <<rel, iw, mf, cont, ctl, ledg, aled, sentLog, dlvLog, nCtl, hp, pings, goneAway, aClosed>>
+\* the other endpoint receives a relayed SETTINGS frame and acknowledges it; the acknowledgement is relayed back
+SetStep(from, to) == /\ sets[from] > 0 /\ sets' = IF to = "" THEN [sets EXCEPT ![from] = @ - 1] ELSE [sets EXCEPT ![from] = @ - 1, ![to] = @ + 1]
+                     /\ UNCHANGED <<rel, iw, mf, cont, ctl, ledg, aled, sentLog, dlvLog, nSend, nCtl, hp, pings, goneAway, aClosed>>
+ARecvSettings == SetStep("b2a", "ackB")
+BRecvSettings == SetStep("a2b", "ackA")
+ARecvAck == SetStep("ackA", "")
+BRecvAck == SetStep("ackB", "")
 
 (* ---- relay applies B's control frames (peer reader thread, under flowMu) ---- *)
 \* relay.go:472 sendQueuedFramesUnderWindowSize ranges over a Go map: any order
@@ -263,6 +282,7 @@ ApplyCtl ==
           [] f.t = "SM" ->
                /\ mf' = f.v
                /\ UNCHANGED <<rel, iw, ledg, dlvLog, hp>>
+          [] f.t = "SE" -> UNCHANGED <<rel, iw, mf, ledg, dlvLog, hp>>
   /\ UNCHANGED <<cont, aled, sentLog, nSend, nCtl, conn>>
 
 Next ==
@@ -274,6 +294,8 @@ Next ==
   \/ \E s \in Streams : ASendPrio(s)
   \/ \E d \in Pings : ASendPing(d) \/ BRecvPing(d)
   \/ ASendGoAway \/ BRecvGoAway \/ ASendClose \/ ASendUnknown
+  \/ (WithSettings /\ ASendSettings) \/ ARecvSettings \/ BRecvSettings \/ ARecvAck \/ BRecvAck
+  \/ (WithSettings /\ BCtl([t |-> "SE", s |-> 0, v |-> 0]))
   \/ WriterSend
   \/ \E s \in Streams \cup {0}, i \in Incs : BCtl([t |-> "WU", s |-> s, v |-> i])
   \/ \E v \in InitWins : BCtl([t |-> "SI", s |-> 0, v |-> v])
@@ -281,6 +303,7 @@ Next ==
   \/ ApplyCtl
 
 Spec == Init /\ [][Next]_vars /\ WF_vars(WriterSend) /\ WF_vars(ApplyCtl) /\ WF_vars(BRecvGoAway) /\ \A d \in Pings : WF_vars(BRecvPing(d))
+             /\ WF_vars(ARecvSettings) /\ WF_vars(BRecvSettings) /\ WF_vars(ARecvAck) /\ WF_vars(BRecvAck)
 
 (* ---------------- properties ---------------- *)
 WithinGrant      == ~bad                       \* C09: stream and connection credit respected
@@ -297,5 +320,6 @@ LedgerAgrees     == gC = cw /\ \A s \in bufs : gS[s] = sw[s]     \* relay window
 HpackInOrder     == \A i \in 1..Len(dlvOrder) : i <= Len(encOrder) /\ dlvOrder[i] = encOrder[i]
 PrefixFidelity   == \A s \in Streams : LogPrefix(dlvLog[s], sentLog[s])        \* C10
 AllDelivered     == <>[](\A s \in Streams : q[s] = <<>> => dlvLog[s] = sentLog[s]) \* C10 liveness
-ConnFramesRelayed == <>[](pings = {} /\ goneAway # "sent")                      \* C10: PING / GOAWAY reach the receiver
+SetsDone == sets = [a2b |-> 0, b2a |-> 0, ackA |-> 0, ackB |-> 0]
+ConnFramesRelayed == <>[](pings = {} /\ goneAway # "sent" /\ SetsDone)                      \* C10: PING / GOAWAY reach the receiver
 ==============================================================================
